@@ -367,6 +367,94 @@ fn run_many(out: &mut WorkerOut) {
     out.nontrivial.insert(hash64("many"));
 }
 
+/// names that collide with something if the registry key is built carelessly: the spelling of
+/// the conditional, separators, the empty name (the unnamed kinds have none), kind names, and two
+/// identifiers with the same 64-bit SipHash-1-3 (zero key) value, std's DefaultHasher
+const ODD_NAMES: &[&str] = &["?:", "?", ":", "", ",", ";", "list", "map", "chain", "ternary", "LIST", "TERNARY", "[]", "-", "vfc5acb49f5ef8c21", "vac9e857a2d36f82b"];
+
+/// Stage "cross-names": every single registration and every ordered pair of registrations over
+/// {unary, binary, postfix, function, reference} x ODD_NAMES + {ternary, list, map, chain};
+/// under each, one hand-assembled node per (kind, name) must render with its own descriptor if
+/// that is registered and with the default otherwise.
+fn run_cross_names(out: &mut WorkerOut) {
+    use expression_engine::ExprAST as E;
+    let mut regs: Vec<(&'static str, &'static str)> = Vec::new();
+    for k in ["unary", "binary", "postfix", "function", "reference"] {
+        for n in ODD_NAMES {
+            regs.push((k, n));
+        }
+    }
+    for k in ["ternary", "list", "map", "chain"] {
+        regs.push((k, ""));
+    }
+    let leaf = |n: &'static str| E::Reference(n);
+    let node = |k: &str, n: &'static str| -> (E<'static>, Vec<String>, String) {
+        let s = |x: &str| x.to_string();
+        match k {
+            "unary" => (E::Unary(n, Box::new(leaf("a"))), vec![s(n), s("a")], format!("{}a", n)),
+            "binary" => (E::Binary(n, Box::new(leaf("a")), Box::new(leaf("b"))), vec![s(n), s("a"), s("b")], format!("a{}b", n)),
+            "postfix" => (E::Postfix(Box::new(leaf("a")), s(n)), vec![s("a"), s(n)], format!("a{}", n)),
+            "function" => (E::Function(n, vec![leaf("a")]), vec![s(n), s("a")], format!("{}(a)", n)),
+            "reference" => (E::Reference(n), vec![s(n)], s(n)),
+            "ternary" => (E::Ternary(Box::new(leaf("a")), Box::new(leaf("b")), Box::new(leaf("c"))), vec![s("a"), s("b"), s("c")], s("a?b:c")),
+            "list" => (E::List(vec![leaf("a"), leaf("b")]), vec![s("a"), s("b")], s("[a,b]")),
+            "map" => (E::Map(vec![(leaf("a"), leaf("b"))]), vec![s("a=b")], s("{a:b}")),
+            _ => (E::Stmt(vec![leaf("a"), leaf("b")]), vec![s("a"), s("b")], s("a;b")),
+        }
+    };
+    let marker = |k: &str, n: &str, args: &[String]| format!("<{}:{}|{}>", k, n, args.join("|"));
+    let register = |k: &'static str, n: &'static str| {
+        let mut m = DescriptorManager::new();
+        let name = n.to_string();
+        match k {
+            "unary" => m.set_unary_descriptor(name, Arc::new(move |op, rhs| format!("<unary:{}|{}|{}>", n, op, rhs))),
+            "binary" => m.set_binary_descriptor(name, Arc::new(move |op, l, r| format!("<binary:{}|{}|{}|{}>", n, op, l, r))),
+            "postfix" => m.set_postfix_descriptor(name, Arc::new(move |lhs, op| format!("<postfix:{}|{}|{}>", n, lhs, op))),
+            "function" => m.set_function_descriptor(name, Arc::new(move |f, args| format!("<function:{}|{}|{}>", n, f, args.join("|")))),
+            "reference" => m.set_reference_descriptor(name, Arc::new(move |r| format!("<reference:{}|{}>", n, r))),
+            "ternary" => m.set_ternary_descriptor(Arc::new(|c, a, b| format!("<ternary:|{}|{}|{}>", c, a, b))),
+            "list" => m.set_list_descriptor(Arc::new(|items| format!("<list:|{}>", items.join("|")))),
+            "map" => m.set_map_descriptor(Arc::new(|items| format!("<map:|{}>", items.iter().map(|(k, v)| format!("{}={}", k, v)).collect::<Vec<_>>().join("|")))),
+            _ => m.set_chain_descriptor(Arc::new(|items| format!("<chain:|{}>", items.join("|")))),
+        }
+    };
+    let nodes: Vec<((&str, &str), (E<'static>, Vec<String>, String))> = regs.iter().map(|(k, n)| ((*k, *n), node(k, n))).collect();
+    let mut judge = |set: &[(&'static str, &'static str)], out: &mut WorkerOut| {
+        DescriptorManager::new().verif_clear();
+        for (k, n) in set {
+            register(k, n);
+        }
+        for ((k, n), (ast, args, default)) in &nodes {
+            out.evals += 1;
+            // leaves a, b, c are references too: none of the odd names is one of them
+            let want = if set.contains(&(*k, *n)) { marker(k, n, args) } else { default.clone() };
+            match guarded(|| Ok::<_, String>(ast.describe())) {
+                Res::Ok(g) if g == want => {
+                    out.count("validated", 1);
+                    out.outcomes.insert(if want.starts_with('<') { "marker-used".into() } else { "default-used".into() });
+                }
+                other => {
+                    let what = if set.iter().any(|(k2, n2)| k2 != k && n2 == n) { "same-name-other-kind" } else if set.iter().any(|(k2, _)| k2 == k) { "same-kind-other-name" } else { "unrelated" };
+                    out.fail(format!("describe:cross-names:{}:registered-{}", k, what), format!("cross-names|registered {:?}; describe {} node named {:?}", set, k, n), format!("expected {:?} got {:?}", want, other));
+                }
+            }
+        }
+    };
+    judge(&[], out);
+    for a in &regs {
+        judge(&[*a], out);
+        for b in &regs {
+            if a != b {
+                judge(&[*a, *b], out);
+            }
+        }
+        out.count("transitions", regs.len() as u64);
+    }
+    DescriptorManager::new().verif_clear();
+    out.count("states", (regs.len() * regs.len() + 1) as u64);
+    out.nontrivial.insert(hash64("cross-names"));
+}
+
 const HOSTILE: &[&str] = &["re-enters-describe", "re-enters-registration", "panics-once"];
 
 /// Stage "hostile": a descriptor for REGS[i] that (a) itself calls parse + describe(), (b)
@@ -569,6 +657,7 @@ impl Prop for C18 {
                 Stage { name: "many".into(), len: 1, chunk: 1, timeout: Duration::from_secs(300), what: "a registry growing to 70 entries (35 names x reference / function descriptors) one registration at a time, then every entry replaced; after every step each name is described as a reference and as a call (fresh process)".into() },
                 Stage { name: "hostile".into(), len: (REGS.len() * HOSTILE.len()) as u64, chunk: 1, timeout: Duration::from_secs(60), what: "for each (kind, name): a descriptor that itself calls parse + describe(), that itself registers a descriptor, or that panics on its first call (fresh process each); renderings, and renderings after the normal descriptor is registered over it, must equal the reference".into() },
                 Stage { name: "fresh".into(), len: (REGS.len() + 2) as u64, chunk: 1, timeout: Duration::from_secs(120), what: "the empty, every singleton and the full configuration, each in a fresh process without the clear hook".into() },
+                Stage { name: "cross-names".into(), len: 1, chunk: 1, timeout: Duration::from_secs(600), what: "every single registration and every ordered pair of registrations over {unary, binary, postfix, function, reference} x 16 names that collide if a registry key is built carelessly (the conditional's spelling '?:', separators, the empty name, kind names, two identifiers with equal 64-bit SipHash) + {ternary, list, map, chain}; under each, one hand-assembled node per (kind, name) renders with its own descriptor if registered, else with the default (fresh process)".into() },
             ],
             rule: format!(
                 "configurations: subsets of {} (kind, name) registrations with names shared across kinds (unary/binary '-', unary/postfix '++', function/reference 'x' and 'f') — {}; programs: every AST of <= {} operator nodes over 16 node kinds (empty and non-empty calls, lists, maps included) + chains ({} programs). \
@@ -612,6 +701,11 @@ impl Prop for C18 {
         if stage == 4 {
             out.at(0);
             run_many(out);
+            return;
+        }
+        if stage == 7 {
+            out.at(0);
+            run_cross_names(out);
             return;
         }
         if stage == 5 {
@@ -676,6 +770,8 @@ impl Prop for C18 {
             "70 registrations one after the other".to_string()
         } else if stage == 5 {
             format!("{} descriptor for {:?}", HOSTILE[i as usize % HOSTILE.len()], REGS[i as usize / HOSTILE.len()])
+        } else if stage == 7 {
+            "single and paired registrations under colliding names".to_string()
         } else {
             format!("fresh {}", i)
         }
